@@ -644,7 +644,7 @@ class DelimitedRowWriter(AbstractRowWriter):
         assert row_text.endswith(_CSV_LINE_TERMINATOR)
         try:
             self._target_stream.write(row_text[: -len(_CSV_LINE_TERMINATOR)] + self._line_separator)
-        except UnicodeEncodeError as error:
+        except UnicodeError as error:
             raise errors.DataFormatError("cannot write data row: %s; row=%s" % (error, row_to_write), self.location)
         self._location.advance_line()
 
@@ -715,7 +715,7 @@ class FixedRowWriter(AbstractRowWriter):
 
         try:
             self._target_stream.write("".join(row_to_write))
-        except UnicodeEncodeError as error:
+        except UnicodeError as error:
             raise errors.DataFormatError("cannot write data row: %s; row=%s" % (error, row_to_write), self.location)
         if self._line_separator is not None:
             self._target_stream.write(self._line_separator)
